@@ -80,71 +80,70 @@ theorem treeCmd_ok (ns : Nodes) (s : St) (args : List Str) : (treeCmd ns s args)
         rw [hb]
 
 
-/-! ### history references: a history entry never contains one, so `execute` nests at most twice -/
+/-! ### the session invariant: what every handler of the code relies on, also in the middle of `execute()` -/
 
-/-- this `;`-segment is dispatched to `executeRunHistoryCmd` -/
-def isBangSeg (seg : Str) : Bool :=
-  !(seg == []) && (match splitCmdline seg with
-    | some (cmd :: _) => cmd.head? == some 33
-    | _ => false)
+structure SInv (s : St) : Prop where
+  cur : s.cursor ≤ s.line.length
+  hidx : s.hidx ≤ s.hist.length
 
-def BangFree (l : Str) : Prop := ∀ seg ∈ splitOn 59 l, isBangSeg seg = false
-def HistBF (h : List Str) : Prop := ∀ l ∈ h, BangFree l
+/-- any consistent session is what some reference editor holds -/
+theorem SInv.rel {s : St} (h : SInv s) :
+    Rel s { left := (s.line.take s.cursor).reverse, right := s.line.drop s.cursor, hist := s.hist, hidx := s.hidx } :=
+  ⟨by simp [RefEd.line], by simp [List.length_take]; exact (Nat.min_eq_left h.cur).symm, rfl, rfl, h.hidx⟩
+
+def Safe (r : St × List Ev) : Prop := SInv r.1 ∧ noBad r.2
+def SafeX (r : ExecRes) : Prop := SInv r.1 ∧ noBad r.2.1
+def SafeFeed (feed : Feed) : Prop := ∀ f, feed = some f → ∀ s bs, SInv s → Safe (f s bs)
 
 theorem noBad_cons {e : Ev} {l : List Ev} (he : e.isBad = false) (hl : noBad l) : noBad (e :: l) := by
   intro x hx; rcases List.mem_cons.mp hx with h | h
   · subst h; exact he
   · exact hl x h
 
-theorem userCmd_noBad (ns : Nodes) (s : St) (args : List Str) (cmd : Str) : noBad (userCmd ns s args cmd).2 := by
-  unfold userCmd; repeat' split
-  all_goals simp [noBad, Ev.isBad]
+theorem runScript_safe (feed : Feed) (hf : SafeFeed feed) (acts : List Act) : ∀ s, SInv s → Safe (runScript feed s acts) := by
+  cases feed with
+  | none =>
+    induction acts with
+    | nil => intro s h; exact ⟨h, noBad_nil⟩
+    | cons a r ih =>
+      intro s h
+      cases a with
+      | send bs => simp only [runScript]; exact ⟨(ih s h).1, noBad_cons rfl (ih s h).2⟩
+      | feed bs => simp only [runScript]; exact ih s h
+      | endS => simp only [runScript]; exact ⟨(ih s h).1, noBad_cons rfl (ih s h).2⟩
+  | some f =>
+    induction acts with
+    | nil => intro s h; exact ⟨h, noBad_nil⟩
+    | cons a r ih =>
+      intro s h
+      cases a with
+      | send bs => simp only [runScript]; exact ⟨(ih s h).1, noBad_cons rfl (ih s h).2⟩
+      | feed bs =>
+        simp only [runScript]
+        have h1 := hf f rfl s bs h
+        have h2 := ih (f s bs).1 h1.1
+        exact ⟨h2.1, noBad_cons rfl (noBad_append h1.2 h2.2)⟩
+      | endS => simp only [runScript]; exact ⟨(ih s h).1, noBad_cons rfl (ih s h).2⟩
 
-/-- a segment that is not a history reference: `inner` is not called, the current input stays, and no
-invalid access happens (whatever the configuration) -/
-theorem executeCmd_nonbang (cfg : Cfg) (ns : Nodes) (inner : St → ExecRes) (s : St) (seg : Str)
-    (h : isBangSeg seg = false) :
-    (executeCmd cfg ns inner s seg).1.line = s.line ∧ noBad (executeCmd cfg ns inner s seg).2.1 := by
-  unfold executeCmd
-  by_cases h0 : seg = []
-  · simp [h0, noBad, Ev.isBad]
-  · simp only [h0, if_false]
-    cases hs : splitCmdline seg with
-    | none => simp [noBad, Ev.isBad]
-    | some args =>
-      cases args with
-      | nil => simp [noBad, Ev.isBad]
-      | cons cmd rest =>
-        have hb : ¬ cmd.head? = some 33 := by
-          intro hh; simp [isBangSeg, h0, hs, hh] at h
-        simp only
-        repeat' split
-        all_goals first
-          | exact ⟨rfl, noBad_cons rfl (userCmd_noBad _ _ _ _)⟩
-          | (exfalso; apply hb; assumption)
-          | (rename_i hne; exact absurd (treeCmd_ok _ _ _) hne)
-          | (refine ⟨rfl, ?_⟩; simp [noBad, Ev.isBad]; done)
-
-theorem runSegs_nonbang (cfg : Cfg) (ns : Nodes) (inner : St → ExecRes) (s : St) (segs : List Str)
-    (h : ∀ seg ∈ segs, isBangSeg seg = false) :
-    (runSegs (executeCmd cfg ns inner) s segs).1.line = s.line ∧ noBad (runSegs (executeCmd cfg ns inner) s segs).2.1 := by
-  induction segs generalizing s with
-  | nil => exact ⟨rfl, noBad_nil⟩
-  | cons c cs ih =>
-    have h1 := executeCmd_nonbang cfg ns inner s c (h c List.mem_cons_self)
-    unfold runSegs
+theorem userCmd_safe (ns : Nodes) (feed : Feed) (hf : SafeFeed feed) (s : St) (args : List Str) (cmd : Str) (h : SInv s) :
+    Safe (userCmd ns feed s args cmd) := by
+  unfold userCmd
+  cases findNode ns cmd s.path with
+  | none => exact ⟨h, by simp [noBad, Ev.isBad]⟩
+  | some np =>
     simp only
-    split
-    · have h2 := ih (executeCmd cfg ns inner s c).1 (fun x hx => h x (List.mem_cons_of_mem _ hx))
-      exact ⟨h2.1.trans h1.1, noBad_append h1.2 h2.2⟩
-    · exact h1
-
-/-- Lemma A: executing a line without history references needs one level only -/
-theorem execute_bangfree (cfg : Cfg) (ns : Nodes) (n : Nat) (s : St) (h : BangFree s.line) :
-    (execute cfg ns (n + 1) s).1.line = s.line ∧ noBad (execute cfg ns (n + 1) s).2.1 := by
-  have := runSegs_nonbang cfg ns (execute cfg ns n) s (splitOn 59 s.line) h
-  unfold execute
-  exact ⟨this.1, noBad_cons rfl this.2⟩
+    cases nodeAt ns (topOf np) with
+    | none => exact ⟨h, by simp [noBad, Ev.isBad]⟩
+    | some node =>
+      cases node with
+      | dir ch => exact ⟨⟨h.cur, h.hidx⟩, noBad_nil⟩
+      | func script =>
+        simp only
+        have hr : Safe (runHandler feed s script) := by
+          unfold runHandler; split
+          · exact runScript_safe feed hf script s h
+          · exact ⟨h, noBad_nil⟩
+        exact ⟨hr.1, noBad_cons rfl (noBad_append hr.2 (by simp [noBad, Ev.isBad]))⟩
 
 /-- the repaired index logic: an error is a message, never an invalid access; a selected line is a
 history entry -/
@@ -184,171 +183,128 @@ theorem selectEntry_fixed (hist : List Str) (a : Str) :
         · simp [h4, noBad, Ev.isBad]
 
 
-theorem executeCmd_bang (cfg : Cfg) (ns : Nodes) (inner : St → ExecRes) (s : St) (seg : Str)
-    (h : isBangSeg seg = true) :
-    ∃ cmd, executeCmd cfg ns inner s seg = runHistory cfg inner s cmd := by
-  unfold isBangSeg at h
-  have h0 : seg ≠ [] := by intro hh; simp [hh] at h
-  cases hs : splitCmdline seg with
-  | none => simp [hs] at h
-  | some args =>
-    cases args with
-    | nil => simp [hs] at h
-    | cons cmd rest =>
-      have hb : cmd.head? = some 33 := by simpa [hs, h0] using h
-      refine ⟨cmd, ?_⟩
-      have n1 : cmd ≠ Msg.cmdLs := by intro hh; subst hh; simp [Msg.cmdLs] at hb
-      have n2 : cmd ≠ Msg.cmdPwd := by intro hh; subst hh; simp [Msg.cmdPwd] at hb
-      have n3 : cmd ≠ Msg.cmdCd := by intro hh; subst hh; simp [Msg.cmdCd] at hb
-      have n4 : cmd ≠ Msg.cmdHelp := by intro hh; subst hh; simp [Msg.cmdHelp] at hb
-      have n5 : cmd ≠ Msg.cmdHistory := by intro hh; subst hh; simp [Msg.cmdHistory] at hb
-      have n6 : cmd ≠ Msg.cmdExit := by intro hh; subst hh; simp [Msg.cmdExit] at hb
-      have n7 : cmd ≠ Msg.cmdQuit := by intro hh; subst hh; simp [Msg.cmdQuit] at hb
-      have n8 : cmd ≠ Msg.cmdTree := by intro hh; subst hh; simp [Msg.cmdTree] at hb
-      unfold executeCmd
-      simp [h0, hs, n1, n2, n3, n4, n5, n6, n7, n8, hb]
 
-/-- one `;`-segment at the outer level of the repaired code -/
-theorem seg_step (ns : Nodes) (n : Nat) (st : St) (seg : Str) (hH : HistBF st.hist) :
-    let r := executeCmd Cfg.fixed ns (execute Cfg.fixed ns (n + 1)) st seg
-    noBad r.2.1 ∧
-    ((r.1.line = st.line ∧ (isBangSeg seg = false ∨ r.2.2 = false)) ∨ r.1.line ∈ st.hist) := by
-  dsimp only
-  cases hb : isBangSeg seg with
+theorem runHistory_safe (inner : St → ExecRes) (rerun : Bool)
+    (hin : rerun = false → ∀ s, SInv s → SafeX (inner s)) (s : St) (a : Str) (h : SInv s) :
+    SafeX (runHistory Cfg.fixed inner rerun s a) := by
+  unfold runHistory
+  cases rerun with
+  | true => simp only [Cfg.fixed, Bool.and_self, if_true]; exact ⟨h, by simp [noBad, Ev.isBad]⟩
   | false =>
-    have := executeCmd_nonbang Cfg.fixed ns (execute Cfg.fixed ns (n + 1)) st seg hb
-    exact ⟨this.2, Or.inl ⟨this.1, Or.inl rfl⟩⟩
-  | true =>
-    obtain ⟨cmd, hc⟩ := executeCmd_bang Cfg.fixed ns (execute Cfg.fixed ns (n + 1)) st seg hb
-    have hsel := selectEntry_fixed st.hist cmd
-    rw [hc]
-    unfold runHistory
-    cases hse : selectEntry Cfg.fixed st.hist cmd with
-    | err evs =>
-      rw [hse] at hsel
-      exact ⟨hsel, Or.inl ⟨rfl, Or.inr rfl⟩⟩
-    | run l echo tag =>
-      rw [hse] at hsel
-      have hA := execute_bangfree Cfg.fixed ns n { st with line := l } (hH l hsel)
-      simp only
-      refine ⟨noBad_cons rfl (noBad_append ?_ hA.2), Or.inr ?_⟩
-      · split <;> simp [noBad, Ev.isBad]
-      · show (execute Cfg.fixed ns (n + 1) { st with line := l }).1.line ∈ st.hist
-        rw [hA.1]; exact hsel
+    simp only [Cfg.fixed, Bool.and_false, Bool.false_eq_true, if_false, if_true]
+    have hsel := selectEntry_fixed s.hist a
+    simp only [Cfg.fixed] at hsel
+    split
+    · next evs he => rw [he] at hsel; exact ⟨h, hsel⟩
+    · next l echo tag he =>
+      have hs' : SInv { s with line := l, cursor := l.length } := ⟨by simp, h.hidx⟩
+      have hk := hin rfl _ hs'
+      refine ⟨hk.1, noBad_cons rfl (noBad_append ?_ hk.2)⟩
+      split <;> simp [noBad, Ev.isBad]
 
-theorem runSegs_safe (ns : Nodes) (n : Nat) (st : St) (segs : List Str) (hH : HistBF st.hist) :
-    let r := runSegs (executeCmd Cfg.fixed ns (execute Cfg.fixed ns (n + 1))) st segs
-    noBad r.2.1 ∧
-    (r.2.2 = true → (r.1.line = st.line ∧ ∀ seg ∈ segs, isBangSeg seg = false) ∨ r.1.line ∈ st.hist) := by
-  induction segs generalizing st with
-  | nil => exact ⟨noBad_nil, fun _ => Or.inl ⟨rfl, by simp⟩⟩
+theorem executeCmd_safe (ns : Nodes) (feed : Feed) (hf : SafeFeed feed) (inner : St → ExecRes) (rerun : Bool)
+    (hin : rerun = false → ∀ s, SInv s → SafeX (inner s)) (s : St) (c : Str) (h : SInv s) :
+    SafeX (executeCmd Cfg.fixed ns feed inner rerun s c) := by
+  unfold executeCmd
+  by_cases h0 : c = []
+  · simp only [h0, if_true]; exact ⟨h, by simp [noBad, Ev.isBad]⟩
+  · simp only [h0, if_false]
+    cases splitCmdline c with
+    | none => exact ⟨h, by simp [noBad, Ev.isBad]⟩
+    | some args =>
+      cases args with
+      | nil => exact ⟨h, by simp [noBad, Ev.isBad]⟩
+      | cons cmd rest =>
+        simp only
+        repeat' split
+        all_goals first
+          | exact runHistory_safe inner rerun hin s _ h
+          | (have hu := userCmd_safe ns feed hf s (cmd :: rest) cmd h
+             exact ⟨hu.1, noBad_cons rfl hu.2⟩)
+          | (rename_i hne; exact absurd (treeCmd_ok _ _ _) hne)
+          | (refine ⟨⟨h.cur, h.hidx⟩, ?_⟩; simp [noBad, Ev.isBad]; done)
+
+theorem runSegs_safe' (f : St → Str → ExecRes) (hf : ∀ s c, SInv s → SafeX (f s c)) (cs : List Str) :
+    ∀ s, SInv s → SafeX (runSegs f s cs) := by
+  induction cs with
+  | nil => intro s h; exact ⟨h, noBad_nil⟩
   | cons c cs ih =>
-    have h1 := seg_step ns n st c hH
-    have hk := executeCmd_keep Cfg.fixed ns (execute Cfg.fixed ns (n + 1)) (fun s => execute_keep _ _ _ s) st c
-    simp only at h1
+    intro s h
+    have h1 := hf s c h
     unfold runSegs
     simp only
-    generalize executeCmd Cfg.fixed ns (execute Cfg.fixed ns (n + 1)) st c = r1 at h1 hk
-    obtain ⟨s1, ev1, ok1⟩ := r1
-    cases ok1 with
-    | false => exact ⟨h1.1, fun hh => by simp at hh⟩
-    | true =>
-      simp only [if_true]
-      have hh1 : s1.hist = st.hist := hk.hist
-      have h2 := ih s1 (by rw [hh1]; exact hH)
-      simp only at h2
-      refine ⟨noBad_append h1.1 h2.1, fun hok => ?_⟩
-      rcases h2.2 hok with ⟨hl, hcs⟩ | hin
-      · rcases h1.2 with ⟨hl1, hb | hf⟩ | hin1
-        · left; refine ⟨hl.trans hl1, ?_⟩
-          intro seg hseg; rcases List.mem_cons.mp hseg with h | h
-          · subst h; exact hb
-          · exact hcs seg h
-        · simp at hf
-        · right; rw [hl]; exact hin1
-      · right; rw [← hh1]; exact hin
+    split
+    · have h2 := ih (f s c).1 h1.1
+      exact ⟨h2.1, noBad_append h1.2 h2.2⟩
+    · exact h1
 
-/-- Lemma B: with a history free of history references, two levels of `execute` suffice and a line
-that gets stored is again free of history references -/
-theorem execute_safe (ns : Nodes) (n : Nat) (s : St) (hH : HistBF s.hist) :
-    noBad (execute Cfg.fixed ns (n + 2) s).2.1 ∧
-    ((execute Cfg.fixed ns (n + 2) s).2.2 = true → BangFree (execute Cfg.fixed ns (n + 2) s).1.line) := by
-  have h := runSegs_safe ns n s (splitOn 59 s.line) hH
-  simp only at h
-  unfold execute
-  refine ⟨noBad_cons rfl h.1, fun hok => ?_⟩
-  rcases h.2 hok with ⟨hl, hb⟩ | hin
-  · show BangFree (runSegs _ s (splitOn 59 s.line)).1.line
-    rw [hl]; exact hb
-  · exact hH _ hin
+/-- with the guard of patch 09 `execute` nests at most twice: no fuel exhaustion -/
+theorem execute_safe (ns : Nodes) (feed : Feed) (hf : SafeFeed feed) (fuel : Nat) : ∀ s, SInv s →
+    (fuel ≥ 1 → SafeX (execute Cfg.fixed ns feed fuel true s)) ∧
+    (fuel ≥ 2 → SafeX (execute Cfg.fixed ns feed fuel false s)) := by
+  induction fuel with
+  | zero => intro s _; exact ⟨fun h => by omega, fun h => by omega⟩
+  | succ n ih =>
+    intro s h
+    constructor
+    · intro _
+      have := runSegs_safe' (executeCmd Cfg.fixed ns feed (execute Cfg.fixed ns feed n true) true)
+        (fun s c hs => executeCmd_safe ns feed hf _ true (fun hh => by cases hh) s c hs) (splitOn 59 s.line) s h
+      unfold execute
+      exact ⟨this.1, noBad_cons rfl this.2⟩
+    · intro hn
+      have := runSegs_safe' (executeCmd Cfg.fixed ns feed (execute Cfg.fixed ns feed n true) false)
+        (fun s c hs => executeCmd_safe ns feed hf _ false (fun _ s' hs' => (ih s' hs').1 (by omega)) s c hs) (splitOn 59 s.line) s h
+      unfold execute
+      exact ⟨this.1, noBad_cons rfl this.2⟩
 
-
-/-! ### the session invariant -/
-
-structure SInv (s : St) : Prop where
-  cur : s.cursor ≤ s.line.length
-  hidx : s.hidx ≤ s.hist.length
-  bf : HistBF s.hist
-
-/-- any consistent session is what some reference editor holds -/
-theorem SInv.rel {s : St} (h : SInv s) :
-    Rel s { left := (s.line.take s.cursor).reverse, right := s.line.drop s.cursor, hist := s.hist, hidx := s.hidx } :=
-  ⟨by simp [RefEd.line], by simp [List.length_take]; exact (Nat.min_eq_left h.cur).symm, rfl, rfl, h.hidx⟩
-
-theorem onEnter_safe (ns : Nodes) (s : St) (h : SInv s) :
-    SInv (onEnter Cfg.fixed ns s).1 ∧ noBad (onEnter Cfg.fixed ns s).2 := by
-  have hB := execute_safe ns 0 s h.bf
-  have hk := execute_keep Cfg.fixed ns execFuel s
+theorem onEnter_safe (ns : Nodes) (feed : Feed) (hf : SafeFeed feed) (s : St) (h : SInv s) :
+    Safe (onEnter Cfg.fixed ns feed s) := by
+  have hB := (execute_safe ns feed hf execFuel s h).2 (by decide)
   unfold onEnter
-  have he : execFuel = 0 + 2 := rfl
-  rw [he] at hk ⊢
-  generalize execute Cfg.fixed ns (0 + 2) s = r at hB hk
+  generalize execute Cfg.fixed ns feed execFuel false s = r at hB
   obtain ⟨s1, evs, ok⟩ := r
-  have hh : s1.hist = s.hist := hk.hist
-  simp only at hB
-  cases ok with
-  | false =>
-    refine ⟨⟨by simp, by simp, ?_⟩, ?_⟩
-    · simp only [hh]; exact h.bf
-    · simp only []
-      refine noBad_append (noBad_append (noBad_append ?_ hB.1) (by simp [noBad, Ev.isBad])) ?_
-      · split <;> simp [noBad, Ev.isBad]
-      · split <;> simp [noBad, Ev.isBad]
-  | true =>
-    have hbf : BangFree s1.line := hB.2 rfl
-    have hall : HistBF (s1.hist ++ [s1.line]) := by
-      intro l hl; rcases List.mem_append.mp hl with h1 | h1
-      · rw [hh] at h1; exact h.bf l h1
-      · simp at h1; subst h1; exact hbf
-    refine ⟨⟨by simp, by simp, ?_⟩, ?_⟩
-    · simp only [if_true]
-      split
-      · intro l hl; exact hall l (List.mem_of_mem_drop hl)
-      · exact hall
-    · simp only [if_true]
-      refine noBad_append (noBad_append (noBad_append ?_ hB.1) ?_) ?_
-      · split <;> simp [noBad, Ev.isBad]
-      · split <;> simp [noBad, Ev.isBad]
-      · split <;> simp [noBad, Ev.isBad]
+  have hb : noBad evs := hB.2
+  simp only
+  refine ⟨⟨by simp, by simp⟩, ?_⟩
+  refine noBad_append (noBad_append (noBad_append ?_ hb) ?_) ?_
+  · split <;> simp [noBad, Ev.isBad]
+  · cases ok
+    · simp [noBad, Ev.isBad]
+    · simp only [if_true]; split <;> simp [noBad, Ev.isBad]
+  · split <;> simp [noBad, Ev.isBad]
 
-theorem onKey_safe (ns : Nodes) (s : St) (k : Key) (h : SInv s) :
-    SInv (onKey Cfg.fixed ns s k).1 ∧ noBad (onKey Cfg.fixed ns s k).2 := by
+theorem onKey_safe (ns : Nodes) (feed : Feed) (hf : SafeFeed feed) (s : St) (k : Key) (h : SInv s) :
+    Safe (onKey Cfg.fixed ns feed s k) := by
   by_cases hk : k = .enter
-  · subst hk; exact onEnter_safe ns s h
-  · have hr := onKey_rel Cfg.fixed ns h.rel k hk
-    have kk := onKey_keep Cfg.fixed ns s k hk
-    refine ⟨⟨?_, hr.1.hle, by rw [kk.hist]; exact h.bf⟩, hr.2⟩
+  · subst hk; exact onEnter_safe ns feed hf s h
+  · have hr := onKey_rel Cfg.fixed ns feed h.rel k hk
+    refine ⟨⟨?_, hr.1.hle⟩, hr.2⟩
     rw [rel_len hr.1, hr.1.cursor]; omega
 
-
-theorem runKeys_safe (ns : Nodes) (s : St) (ks : List Key) (h : SInv s) :
-    SInv (runKeys Cfg.fixed ns s ks).1 ∧ noBad (runKeys Cfg.fixed ns s ks).2 := by
-  induction ks generalizing s with
-  | nil => exact ⟨h, noBad_nil⟩
+theorem runKeys_safe (ns : Nodes) (feed : Feed) (hf : SafeFeed feed) (ks : List Key) :
+    ∀ s, SInv s → Safe (runKeys Cfg.fixed ns feed s ks) := by
+  induction ks with
+  | nil => intro s h; exact ⟨h, noBad_nil⟩
   | cons k ks ih =>
-    have h1 := onKey_safe ns s k h
-    have h2 := ih (onKey Cfg.fixed ns s k).1 h1.1
+    intro s h
+    have h1 := onKey_safe ns feed hf s k h
+    have h2 := ih (onKey Cfg.fixed ns feed s k).1 h1.1
     exact ⟨h2.1, noBad_append h1.2 h2.2⟩
+
+theorem feedAt_safe (ns : Nodes) (d : Nat) : SafeFeed (feedAt Cfg.fixed ns d) := by
+  induction d with
+  | zero => intro f hf; simp [feedAt] at hf
+  | succ n ih =>
+    intro f hf s bs hs
+    simp only [feedAt, Option.some.injEq] at hf
+    subst hf
+    cases n with
+    | zero => exact runKeys_safe ns none (by intro f hf; simp at hf) _ s hs
+    | succ m => exact runKeys_safe ns (some (recvStringD Cfg.fixed ns m)) ih _ s hs
+
+theorem recvStringD_safe (ns : Nodes) (d : Nat) (s : St) (bs : Str) (h : SInv s) : Safe (recvStringD Cfg.fixed ns d s bs) :=
+  feedAt_safe ns (d + 1) _ rfl s bs h
 
 /-! ### the front ends -/
 
@@ -450,14 +406,7 @@ theorem WInv.slot {w : World} (h : WInv w) (k : Nat) : SlotInv (w.slot k) := get
 theorem WInv.setSlot {w : World} (h : WInv w) (k : Nat) (y : Slot) (hy : SlotInv y) : WInv (w.setSlot k y) :=
   set_inv w.slots h k y hy
 
-theorem slotInv_none (x : Slot) (f g : Nat) (p : Str) : SlotInv { x with sess := none, fstate := f, gen := g, pending := p } := by
-  intro s hs; simp at hs
-
-theorem sinv_fresh (o : Nat) : SInv { opts := o } :=
-  ⟨by simp, by simp, by intro l hl; simp at hl⟩
-
-theorem slotInv_fresh (f g o : Nat) (p : Str) : SlotInv { fstate := f, gen := g, sess := some { opts := o }, pending := p } := by
-  intro s hs; simp at hs; subst hs; exact sinv_fresh o
+theorem sinv_fresh (o : Nat) : SInv { opts := o } := ⟨by simp, by simp⟩
 
 theorem exitSlot_spec (k : Nat) (x : Slot) : (exitSlot k x).1.sess = none ∧ noBad (exitSlot k x).2 := by
   unfold exitSlot; cases kindOf k <;> simp [noBad, Ev.isBad]
@@ -477,9 +426,43 @@ theorem runExits_safe (ex : List (Nat × Nat)) (sl : List Slot) (h : ∀ x ∈ s
       exact ⟨this.1, noBad_append hsp.2 this.2⟩
     · simp only [Cfg.fixed, if_true]; exact ih sl h
 
+theorem closeEnding_safe (ks : List Nat) : ∀ (sl : List Slot), (∀ x ∈ sl, SlotInv x) →
+    (∀ x ∈ (closeEnding ks sl).1, SlotInv x) ∧ noBad (closeEnding ks sl).2 := by
+  induction ks with
+  | nil => intro sl h; exact ⟨h, noBad_nil⟩
+  | cons k ks ih =>
+    intro sl h
+    unfold closeEnding
+    simp only
+    split
+    · split
+      · have := ih _ (set_inv sl h k { sl.getD k {} with ending := false, fstate := 2, sess := none, pending := [] }
+          (by intro s hs; cases hs))
+        exact ⟨this.1, noBad_cons rfl (noBad_cons rfl this.2)⟩
+      · exact ih _ (set_inv sl h k { sl.getD k {} with ending := false } (by intro s hs; exact getD_inv sl h k s hs))
+    · exact ih sl h
+
 theorem doPass_safe (w : World) (h : WInv w) : WInv (doPass Cfg.fixed w).1 ∧ noBad (doPass Cfg.fixed w).2 := by
-  have := runExits_safe w.exits w.slots h
-  exact ⟨this.1, this.2⟩
+  have h1 := runExits_safe w.exits w.slots h
+  have h2 := closeEnding_safe [4, 5, 6] _ h1.1
+  exact ⟨h2.1, noBad_append h1.2 h2.2⟩
+
+theorem noBad_filter {evs : List Ev} (p : Ev → Bool) (h : noBad evs) : noBad (evs.filter p) :=
+  fun e he => h e (List.mem_filter.mp he).1
+
+theorem finishSlot_safe (w : World) (k : Nat) (x : Slot) (so : Option St) (evs : List Ev) (h : WInv w)
+    (hx : SlotInv x) (hso : ∀ s, so = some s → SInv s) (hb : noBad evs) :
+    WInv (finishSlot w k x so evs).1 ∧ noBad (finishSlot w k x so evs).2 := by
+  unfold finishSlot
+  simp only
+  cases kindOf k <;> simp only
+  · exact ⟨h.setSlot k _ (fun s hs => hso s hs), noBad_cons rfl hb⟩
+  · exact ⟨h.setSlot k _ (fun s hs => hso s hs), noBad_cons rfl (noBad_filter _ hb)⟩
+  · exact ⟨h.setSlot k _ (fun s hs => hso s hs), noBad_cons rfl (noBad_filter _ hb)⟩
+  · refine ⟨h.setSlot k _ ?_, noBad_cons rfl (noBad_filter _ hb)⟩
+    split
+    · intro s hs; cases hs
+    · exact fun s hs => hso s hs
 
 theorem deliver_safe (w : World) (k : Nat) (bs : Str) (h : WInv w) :
     WInv (deliver Cfg.fixed w k bs).1 ∧ noBad (deliver Cfg.fixed w k bs).2 := by
@@ -488,15 +471,11 @@ theorem deliver_safe (w : World) (k : Nat) (bs : Str) (h : WInv w) :
   cases hs : (w.slot k).sess with
   | none => exact ⟨h, noBad_nil⟩
   | some s =>
-    have hsafe := runKeys_safe w.nodes s (recvKeys bs) (h.slot k s hs)
-    simp only
-    refine ⟨?_, noBad_cons rfl hsafe.2⟩
-    have : WInv (w.setSlot k { w.slot k with sess := some (recvString Cfg.fixed w.nodes s bs).1 }) :=
-      h.setSlot k _ (by intro s' hs'; simp at hs'; subst hs'; exact hsafe.1)
-    exact this
+    have hsafe := recvStringD_safe w.nodes w.depth s bs (h.slot k s hs)
+    exact finishSlot_safe w k _ _ _ h (h.slot k) (by intro s' hs'; simp at hs'; subst hs'; exact hsafe.1) hsafe.2
 
-theorem applyTel_safe (ns : Nodes) (evs : List Ev) : ∀ (so : Option St), (∀ s, so = some s → SInv s) → noBad evs →
-    (∀ s, (applyTel Cfg.fixed ns so evs).1 = some s → SInv s) ∧ noBad (applyTel Cfg.fixed ns so evs).2 := by
+theorem applyTel_safe (ns : Nodes) (d : Nat) (evs : List Ev) : ∀ (so : Option St), (∀ s, so = some s → SInv s) → noBad evs →
+    (∀ s, (applyTel Cfg.fixed ns d so evs).1 = some s → SInv s) ∧ noBad (applyTel Cfg.fixed ns d so evs).2 := by
   induction evs with
   | nil => intro so h _; exact ⟨h, noBad_nil⟩
   | cons e r ih =>
@@ -506,12 +485,12 @@ theorem applyTel_safe (ns : Nodes) (evs : List Ev) : ∀ (so : Option St), (∀ 
     cases e with
     | tel t =>
       cases t with
-      | str d =>
+      | str bs =>
         cases so with
         | none => simpa [applyTel] using ih none h hr
         | some st =>
-          have hsafe := runKeys_safe ns st (recvKeys d) (h st rfl)
-          have := ih (some (recvString Cfg.fixed ns st d).1) (by intro s hs; simp at hs; subst hs; exact hsafe.1) hr
+          have hsafe := recvStringD_safe ns d st bs (h st rfl)
+          have := ih (some (recvStringD Cfg.fixed ns d st bs).1) (by intro s hs; simp at hs; subst hs; exact hsafe.1) hr
           simp only [applyTel]
           exact ⟨this.1, noBad_append hsafe.2 this.2⟩
       | setopt o =>
@@ -523,7 +502,7 @@ theorem applyTel_safe (ns : Nodes) (evs : List Ev) : ∀ (so : Option St), (∀ 
         | some st =>
           simp at hs; subst hs
           have := h st rfl
-          exact ⟨this.cur, this.hidx, this.bf⟩
+          exact ⟨this.cur, this.hidx⟩
       | win a b => simpa [applyTel] using ih so h hr
       | reply bs =>
         have := ih so h hr
@@ -540,6 +519,12 @@ theorem noBad_retLine (b : Bool) : noBad (retLine b) := noBad_opLine _
 theorem noBad_beginEvs (s : St) : noBad (beginEvs s) := by
   unfold beginEvs; split <;> simp [noBad, Ev.isBad]
 
+theorem slotInv_fresh (x : Slot) (o : Nat) (hx : x.sess = some { opts := o }) : SlotInv x := by
+  intro s hs; rw [hx] at hs; cases hs; exact sinv_fresh o
+
+theorem winv_replicate (n : Nat) : ∀ x ∈ List.replicate n ({} : Slot), SlotInv x := by
+  intro x hx; rw [(List.mem_replicate.mp hx).2]; exact slotInv_default
+
 theorem step_safe (w : World) (op : Op) (h : WInv w) :
     ∀ r, step Cfg.fixed w op = some r → WInv r.1 ∧ noBad r.2 := by
   intro r hr
@@ -548,10 +533,14 @@ theorem step_safe (w : World) (op : Op) (h : WInv w) :
     simp only [step] at hr; split at hr
     · cases hr; exact ⟨h, noBad_opLine _⟩
     · simp at hr
+  | depth n =>
+    simp only [step] at hr; split at hr
+    · cases hr; exact ⟨h, noBad_opLine _⟩
+    · simp at hr
   | openS o =>
     simp only [step] at hr; split at hr
     · cases hr
-      exact ⟨h.setSlot _ _ (slotInv_fresh _ _ _ _), noBad_cons rfl (noBad_append (noBad_beginEvs _) (noBad_retLine _))⟩
+      exact ⟨h.setSlot _ _ (slotInv_fresh _ o rfl), noBad_cons rfl (noBad_append (noBad_beginEvs _) (noBad_retLine _))⟩
     · simp at hr
   | recv bs =>
     simp only [step] at hr; split at hr
@@ -566,12 +555,11 @@ theorem step_safe (w : World) (op : Op) (h : WInv w) :
     have := doPass_safe w h
     exact ⟨this.1, noBad_append this.2 (noBad_opLine _)⟩
   | teardown =>
-    simp only [step] at hr; cases hr
-    refine ⟨?_, noBad_append ?_ (noBad_opLine _)⟩
-    · intro x hx
-      simp [nSlots] at hx
-      rw [hx]; exact slotInv_default
-    · simp [Cfg.fixed, noBad]
+    simp only [step] at hr; split at hr
+    · simp at hr
+    · cases hr
+      refine ⟨winv_replicate _, noBad_append ?_ (noBad_opLine _)⟩
+      simp [Cfg.fixed, noBad]
   | opt n =>
     simp only [step] at hr; split at hr
     · split at hr
@@ -581,7 +569,7 @@ theorem step_safe (w : World) (op : Op) (h : WInv w) :
         refine ⟨h.setSlot _ _ ?_, noBad_opLine _⟩
         intro s' hs'; simp at hs'; subst hs'
         have := h.slot w.cur s hs
-        exact ⟨this.cur, this.hidx, this.bf⟩
+        exact ⟨this.cur, this.hidx⟩
     · simp at hr
   | winsz a b =>
     simp only [step] at hr; split at hr
@@ -594,7 +582,7 @@ theorem step_safe (w : World) (op : Op) (h : WInv w) :
   | xconn k =>
     simp only [step] at hr; split at hr
     · cases hr
-      refine ⟨h.setSlot _ _ (slotInv_fresh _ _ _ _), noBad_cons rfl (noBad_append (noBad_append ?_ (noBad_beginEvs _)) (noBad_opLine _))⟩
+      refine ⟨h.setSlot _ _ (slotInv_fresh _ _ rfl), noBad_cons rfl (noBad_append (noBad_append ?_ (noBad_beginEvs _)) (noBad_opLine _))⟩
       split <;> simp [noBad, Ev.isBad]
     · simp at hr
   | xrecv k bs =>
@@ -608,10 +596,11 @@ theorem step_safe (w : World) (op : Op) (h : WInv w) :
       · cases hr
         have hf := telParse_noBad (((w.slot k).pending ++ bs).length + 1)
           (match (w.slot k).sess with | some s => s.opts | none => 0) ((w.slot k).pending ++ bs)
-        have ha := applyTel_safe w.nodes _ (w.slot k).sess (h.slot k) hf
-        refine ⟨?_, noBad_cons rfl (noBad_append ha.2 (noBad_opLine _))⟩
-        apply WInv.setSlot h
-        intro s hs; exact ha.1 s hs
+        have ha := applyTel_safe w.nodes w.depth _ (w.slot k).sess (h.slot k) hf
+        have hfin := finishSlot_safe w k { w.slot k with pending := (telFeed Cfg.fixed
+          (match (w.slot k).sess with | some s => s.opts | none => 0) (w.slot k).pending bs).2.2 } _ _ h
+          (fun s hs => h.slot k s hs) ha.1 ha.2
+        exact ⟨hfin.1, noBad_append hfin.2 (noBad_opLine _)⟩
     · simp at hr
   | xdisc k =>
     simp only [step] at hr; split at hr
@@ -621,7 +610,7 @@ theorem step_safe (w : World) (op : Op) (h : WInv w) :
     simp only [step] at hr; split at hr
     · cases hr
       have := doPass_safe _ (h.setSlot 7 { w.slot 7 with fstate := 1, gen := (w.slot 7).gen + 1, sess := some { opts := 1 } }
-        (by intro s hs; simp at hs; subst hs; exact sinv_fresh 1))
+        (slotInv_fresh _ 1 rfl))
       exact ⟨this.1, noBad_cons rfl (noBad_append (noBad_append (noBad_beginEvs _) this.2) (noBad_retLine _))⟩
     · simp at hr
   | srecv bs =>
@@ -639,7 +628,7 @@ theorem step_safe (w : World) (op : Op) (h : WInv w) :
         · exact ⟨h, noBad_nil⟩
         · split
           · exact deliver_safe w 7 bs h
-          · exact ⟨h.setSlot 7 _ (by intro s hs; simp at hs; subst hs; exact sinv_fresh 1), noBad_cons rfl (noBad_beginEvs _)⟩
+          · exact ⟨h.setSlot 7 _ (slotInv_fresh _ 1 rfl), noBad_cons rfl (noBad_beginEvs _)⟩
       have h2 := doPass_safe _ h1.1
       exact ⟨h2.1, noBad_append (noBad_append h1.2 h2.2) (noBad_opLine _)⟩
     · simp at hr
@@ -653,7 +642,7 @@ theorem step_safe (w : World) (op : Op) (h : WInv w) :
     simp only [step] at hr; split at hr
     · cases hr; exact ⟨h, noBad_opLine _⟩
     · simp at hr
-  | mkfunc =>
+  | mkfunc sc =>
     simp only [step] at hr; split at hr
     · cases hr; exact ⟨h, noBad_opLine _⟩
     · simp at hr
@@ -689,7 +678,6 @@ theorem run_safe (w : World) (ops : List Op) (h : WInv w) : noBad (run Cfg.fixed
       have := step_safe w op h r hs
       exact noBad_append this.2 (ih r.1 this.1)
 
-theorem winv_init : WInv {} := by
-  intro x hx; simp [nSlots] at hx; rw [hx]; exact slotInv_default
+theorem winv_init : WInv {} := winv_replicate _
 
 end Tbox.C13
